@@ -721,11 +721,13 @@ fn pass_x3(text: String, ex: &Extract, probes: bool, probe_ctr: &mut usize) -> R
             Some(key) => {
                 let strip = |t: &str| t.chars().filter(|c| !c.is_whitespace()).collect::<String>();
                 let k = strip(key);
-                cf.whole.iter().position(|(a, b)| {
+                // among the closures whose window contains the key the SHORTEST one wins (a closure nested in
+                // another one is also part of the outer one's text)
+                cf.whole.iter().enumerate().filter(|(_, (a, b))| {
                     let mut from = a.saturating_sub(120);
                     while !text.is_char_boundary(from) { from += 1; }
                     strip(&text[from..*b]).contains(k.as_str())
-                }).ok_or(Fail(format!("closure_key {} not found: {}", kno, key)))?
+                }).min_by_key(|(_, (a, b))| b - a).map(|(i, _)| i).ok_or(Fail(format!("closure_key {} not found: {}", kno, key)))?
             }
             None => kno - 1,
         };
